@@ -15,6 +15,8 @@ from .common import MachineryError
 
 TEST_FILES = ["tests/test_integration.py", "tests/test_interface.py", "tests/test_cache.py", "tests/test_parallel.py", "tests/test_io.py", "tests/test_memory.py"]
 
+EXAMPLE_CONFIGS = ["timeseries.yaml", "minimal.yaml", "footprint.yaml", "minimal_3d.yaml", "3d_plume.yaml", "multitower.yaml", "visualization.yaml"]
+
 _RECORDED = {}
 
 
@@ -32,6 +34,15 @@ def record(name="repo_tests"):
     tail = lines[-1].strip("= ") if lines else ""
     if p.returncode != 0 or not os.path.exists(tf):
         raise MachineryError("recording the repository's tests with hooks on failed: %s" % tail)
+    # the repository's example configurations through its command line (bldfm run <yaml>), same trace file
+    n_ex = 0
+    for ex in EXAMPLE_CONFIGS:
+        cfgp = os.path.join(common.REPO, "examples", "configs", ex)
+        if not os.path.exists(cfgp):
+            continue
+        pe = subprocess.run([common.PY, "-m", "bldfm.cli", "run", cfgp], cwd=d, env=env, stdout=subprocess.PIPE, stderr=subprocess.STDOUT, text=True, timeout=1200)
+        n_ex += pe.returncode == 0
+    tail = "%s; %d example configurations run through the CLI" % (tail, n_ex)
     _RECORDED[name] = (tf, tail)
     return tf, tail
 
